@@ -125,6 +125,57 @@ CLAIMS['C19'] = dict(
          'Not decided: kernel TCP behaviour; team names containing a double quote (excluded by the property).',
     ref='4/C19')
 
+
+SKEL = ('static analysis: abstract interpretation of the communication skeleton (ASTs of Server.run / PlayerThread.run / Client.run as cooperating '
+        'processes over the finite role domain - seats, pairs, control tokens, opaque call/card/hand tokens with provenance; engines, sockets, '
+        'queues, barrier, events and the log are analyser stubs) for every role configuration, compared with a spec-level oracle')
+SKEL_NOTE = (COMMON_NOTE + ' Additionally trusted: the engine stubs of sa.skeleton (turn logic as established on the real classes by C01-C05), '
+             'CPython semantics of Queue/Barrier/Event, Kahn determinacy (schedule independence under the discipline rule); extra scheduling policies '
+             'are a cross-check of that theorem on identical configurations.')
+CLAIMS['C08'] = dict(
+    technique=SKEL + '; KPN-discipline who-may-call inventory; provenance of every record key in JsonLogWriter.write',
+    text='PARTIAL. Decided for every role configuration (dealer x declarer x trick-winner patterns x auction lengths x passed-out x multi-board sessions): '
+         'the arguments handed to the log writer for board k are the configured id/dealer/dda and the ORIGINAL deal object (the play engine consumes a '
+         'copy), the call and card tokens exactly as the seats sent them, the contract of the auction engine with the configured vulnerability, the trick '
+         'count of DECLARER\'s side, scores {declarer side: calc_score(contract, those tricks), other: its negation}, None/None/zeros when passed out, one '
+         'record per board in order; identical under every scheduling policy; no random draw for configured values; every record key of the writer is '
+         'computed from the parameter of its role. NOT decided: the JSON text (C12), scoring arithmetic (C07), legality (C01-C06).',
+    ref='4/C08', note=SKEL_NOTE)
+CLAIMS['C09'] = dict(
+    technique='static analysis: Kahn-process-network discipline as a who-may-call / allowed-operations inventory of every Queue, Barrier and Event; token exhaustiveness; ' + SKEL,
+    text='Every cross-thread primitive obeys the discipline under which termination is schedule-independent (unbounded queues, blocking get / plain put, '
+         'one producer and one consumer role per queue keyed by the own seat, Barrier of seats+1 parties, Event only as the one-shot admission handshake; '
+         'a release flag set or cleared by the main thread - the original defect - is reported); every control token put has a handler; for every role '
+         'configuration and scheduling policy (incl. each of the 9 processes stalled as long as possible) the abstract session has no deadlock, all processes '
+         'finish, queues are drained, each client gets "End of session" last, the log is closed before that, every seat thread is joined. '
+         'Assumes conforming clients and no exception (abort paths: C13).',
+    ref='4/C09', note=SKEL_NOTE)
+CLAIMS['C10'] = dict(
+    technique='static analysis: information-flow of hand contents to queue puts (two recognised disclosures), relay skip-key = source-queue key; ' + SKEL,
+    text='For every role configuration the stream each connection receives equals, message by message, the entitlement computed from the configuration alone: '
+         'own hand only (owner and board provenance), dummy after card 1 and before card 2 of trick 1 on the two-way stream and never to dummy, every call / card '
+         'once, in order, to every seat except its source connection (declarer for dummy), lead prompts only to the connection that must lead, configured '
+         'board number / dealer / vulnerability; seat queues are touched by their own thread and main only. Structural: every hand-dependent put is one of '
+         'the two recognised disclosures; each relay skips exactly the queue key it read from. NOT decided: bytes inside the opaque texts (C19).',
+    ref='4/C10', note=SKEL_NOTE)
+CLAIMS['C11'] = dict(
+    technique='static analysis: who-may-write / no-override rule for the shared play state machine; path summaries of both play_card_by_player overrides on every situation (reuse of C05); ' + SKEL + ' with the bundled Client as the four peers',
+    text='Replicas share one state machine (state written only by PlayingPhase, no override of play_card/_record/_set_next_leader/calc_highest/has_done, the '
+         'unmodified card handed over exactly once); the observer accepts whenever the full engine accepts (all seat/role/holding/disclosure situations) - '
+         'agreement is then inductive over the public plays. For every role configuration of a whole session with the bundled client: mirrors are built '
+         'from the announced dealer/vulnerability/contract/own hand/disclosed dummy, every call and card a mirror is fed is the one the table manager applied '
+         'at that step, no client is answered ERROR, clients finish iff the server does, and at the end of each board the four mirrors hold the table '
+         'manager\'s calls, contract, cards, trick number, leader, turn. NOT decided: card/call values inside the mirrors (opaque; C19).',
+    ref='4/C11', note=SKEL_NOTE)
+CLAIMS['C20'] = dict(
+    technique='static analysis: exhaustive abstract interpretation of PlayerThread._connect over (seat table 3^4) x (seat x team x version) against the admission specification; path rule (exactly one verdict signal); one-shot handshake discipline; abstract admission sessions for orders of arrival',
+    text='All 81 x 36 (table, request) transitions of _connect: wrong version / taken seat / partner under another name => ERROR reply, connection closed, table '
+         'unchanged; else seat recorded and `<Seat> <team> seated`; always exactly one verdict signal; Teams line = table[N], table[E]. Team names are used '
+         'only through ==/!=/None tests, so three names cover all orderings. Accept loop = one-shot handshake. Scenarios: all orders of the four valid '
+         'requests, rejected requests inserted at every stage, simultaneous arrival under several schedules: verdicts follow the specification in acceptance '
+         'order, one client per seat, partners share a name, everyone gets Teams then "Start of board", the first board is played.',
+    ref='4/C20', note=SKEL_NOTE)
+
 PENDING_REASON = 'check under construction in this session (static rules designed in DESIGN.md section 4, not yet registered)'
 
 
@@ -159,7 +210,7 @@ def main():
         'checks': checks,
         'not_applicable': na,
         'notes': 'All checks: cwd=/verif, interpreter /venv/bin/python (stdlib only). Exit 0 ok, 1 VIOLATION, 2 ANALYSIS-ERROR '
-                 '(rule could not be evaluated). Known findings: /verif/KNOWN_FINDINGS.txt (seven defects, all repaired by fix: commits in /repo).',
+                 '(rule could not be evaluated). Known findings: /verif/KNOWN_FINDINGS.txt (eight defects, all repaired by fix: commits in /repo).',
     }
     with open(os.path.join(VERIF, 'MANIFEST.json'), 'w') as fh:
         json.dump(man, fh, indent=1)
